@@ -386,11 +386,11 @@ class CIMDateTime(_CIMComparisonMixin, CIMType):
     _timestamp_pattern = re.compile(
         r'^([\d\*]{4})([\d\*]{2})([\d\*]{2})'
         r'([\d\*]{2})([\d\*]{2})([\d\*]{2})\.([\d\*]{6})'
-        r'([+|-])(\d{3})')
+        r'([+|-])(\d{3})\Z')
 
     _interval_pattern = re.compile(
         r'^([\d\*]{8})([\d\*]{2})([\d\*]{2})([\d\*]{2})\.([\d\*]{6})'
-        r'(:)(000)')
+        r'(:)(000)\Z')
 
     def __init__(self, dtarg):
         """
